@@ -57,6 +57,9 @@ def run(c):
         "encoding/json round trip of QueueMetadata (Codec.rt) and textproto.WriteHeader/ReadHeader round trip of an accepted header (hdrOk) are parameters of the model",
         "terminal outcome of a recipient (delivered by the target / named in a failure report) is the one established by C01; without a bounce pipeline a permanent failure is only logged",
         "non-Windows branch of updateMetadataOnDisk",
+        "retry schedule: the conversion time.Duration(+Inf) (readDiskQueue's sentinel tries count under a scale > 1) is the amd64 one (-2^63; implementation-defined in Go): "
+        "C02_no_attempt_yet_delay_amd64; with a saturating conversion the same holds for every even number of nanoseconds (C02_no_attempt_yet_delay_saturating_even), an odd one is the "
+        "recorded counterexample C02_no_attempt_yet_saturating_odd_never_due; how long a nanosecond takes is outside the model (tie: the time-wheel monitor)",
     ]
     c.trusted_base += [
         "checks/c02.py import rewrite (\"os\" -> internal/verifshim/vos in an overlay copy of the CURRENT queue.go) and harness/internal/verifshim/vos "
@@ -94,7 +97,10 @@ def run(c):
         "directories holding such a record (acceptance-time and after-a-deferral image), and real runs in which the first attempt defers (nearly) every recipient and the process is "
         "stopped between the attempts (always) and at a sample of the other crash points, then restarted; "
         "Close racing with an open transaction (a sixth of the single-message scenarios): Start, AddRcpt, [Close,] Body, [Close,] Commit | Abort on the stopped queue (`Q`, `K`), "
-        "process exit, restart on the same spool; a Commit that returns an error is recorded as NACK (token `N`, no step of the model)",
+        "process exit, restart on the same spool; a Commit that returns an error is recorded as NACK (token `N`, no step of the model); "
+        "the retry schedule (`W<initial_retry_time us>,<retry_time_scale x100>,<post-init delay us>`): a third of all scenarios / hand-made directories / backlogs / big cases run — every "
+        "segment, the first run and all restarts — under a production-shaped schedule scaled down to milliseconds (initial 0.5-3 ms, scale 0.75 / 1 / 1.25 / 1.5 / 2 / 3 / 4, post-init delay 0-3 ms) "
+        "instead of the test helpers' 0 / 1 / 0; in every run the harness reads the queue's real time wheel every 2 ms",
         explanation="inductive invariant over a small-step model in which every single file-system call is a step and a crash (any loss of un-synced data, any torn write) is possible in "
         "every state, recovery included to any depth; model tied to queue.go by the regenerated call skeleton (T1) and by exhaustive crash-point enumeration on the real code (T2); "
         "independent Go monitor on the real events (accepted-lost / stored-lost: in EVERY recovery run each pending recipient of a complete stored message is attempted and then delivered, "
@@ -109,6 +115,10 @@ def run(c):
         "(C02_meta_roundtrip_any_size; tied T2 by the big cases); acceptance = Commit returned nil, also on a stopped queue (choice commitStopped; C02_commit_acknowledges, "
         "C02_commit_on_stopped_queue_survives), and the spool holds a loadable entry only for acknowledged transactions or ones the sender never got a reply for "
         "(C02_loadable_only_if_acknowledged_or_unanswered); monitor: a transaction whose Commit returned an error or that was aborted is never attempted, now or after a restart "
-        "(unacknowledged-delivered, aborted-delivered), an acknowledged one is (accepted-lost)",
+        "(unacknowledged-delivered, aborted-delivered), an acknowledged one is (accepted-lost); "
+        "the retry schedule: retryDelay / retryDue / restartDue mirror the wrapping 64-bit arithmetic of tryDelivery / readDiskQueue with the float power + conversion as a parameter "
+        "(C02_restart_due_within_horizon, C02_retry_due_within_horizon, C02_restart_due_not_before_post; the message without any recorded attempt — sentinel tries count, power +Inf — is due "
+        "right after the post-init delay under every schedule: C02_no_attempt_yet_due_at_once); monitor retry-never-due: no slot of the real time wheel is due later than the longest delay of "
+        "the configured schedule + 10 minutes (the schedule is in milliseconds); a message that is, is never attempted (accepted-lost)",
         search=search,
     )
